@@ -61,12 +61,16 @@ reg("C13",
     level_note="Trusted: conjure-serde's direct JSON path as the reference for 'same document' / 'same coercions' (its own correctness is C01's business); plain serde_json::Value equality for document equivalence. JSON integers beyond 64 bits are outside the statement.")
 
 reg("C17",
-    packages=["shapes"], bin="shapes", level="model_checking", engine="E1 shapes",
+    packages=["shapes", "cgorder"], level="model_checking", engine="E1 shapes + E2 genharness",
+    parts=[
+        {"packages": ["shapes"], "bin": "shapes"},
+        {"packages": ["cgorder"], "cmd": ["python3", "engines/e2/e2.py"]},
+    ],
     technique="explicit-state enumeration of error definitions x parameter values, each executed on the real encode / Error::service* code and judged by a model of the encoding and of the safe/unsafe partition",
     design_ref="DESIGN.md §3 C17",
     explanation="a dynamic ErrorType+Serialize value: one parameter of every shape x value (safe/unsafe, null-or-skipped); every definition over 6 parameter names x {undefined, safe, unsafe} x {scalar, list, absent optional}; every error code; each through encode, with_instance_id, Error::service, service_safe, propagated_service, propagated_service_safe",
     level_text="Bounded exhaustive exploration of error definitions (all safe/unsafe/omitted interleavings in sorted-name order up to 6 names) and of parameter shapes/values, executed on the implementation against a reference model of the encoding rules and of the partition.",
-    level_note="Trusted: the dynamic (Shape, Val) Serialize impl (bound to derive by the C01 twin conformance); Rust's f64 parser as judge of 'parses back to the same number'. Generated error types (code, Namespace:Name, sorted safe_args) are covered by the E2 part when built.")
+    level_note="Trusted: the dynamic (Shape, Val) Serialize impl (bound to derive by the C01 twin conformance); Rust's f64 parser as judge of 'parses back to the same number'. Part 1 generates ~60 error definitions (every safe x unsafe partition size, every argument type, every code, keyword / camelCase names), compiles them and drives the generated types through ErrorType, encode and Error::service*.")
 
 reg("C11",
     packages=["httpdirect"], bin="httpdirect", level="model_checking", engine="E3a httpdirect",
